@@ -10,6 +10,8 @@
 package inline
 
 import (
+	"strconv"
+	"regexp"
 	"bytes"
 	"fmt"
 	"go/ast"
@@ -99,6 +101,8 @@ func isGenerated(f *ast.File) bool {
 	return false
 }
 
+var inlNumRe = regexp.MustCompile(`__inl(\d+)`)
+
 func onePass(p *packages.Package, keep map[string]bool, overlay map[string][]byte) (int, []string, error) {
 	info := p.TypesInfo
 	fset := p.Fset
@@ -120,7 +124,7 @@ func onePass(p *packages.Package, keep map[string]bool, overlay map[string][]byt
 		}
 		for _, d := range f.Decls {
 			fd, ok := d.(*ast.FuncDecl)
-			if !ok || fd.Body == nil || keep[funcKey(fd)] || fd.Name.Name == "init" || fd.Name.Name == "main" || fd.Type.TypeParams != nil {
+			if !ok || fd.Body == nil || keep[funcKey(fd)] || fd.Name.Name == "init" || fd.Name.Name == "main" {
 				continue
 			}
 			obj, _ := info.Defs[fd.Name].(*types.Func)
@@ -129,6 +133,13 @@ func onePass(p *packages.Package, keep map[string]bool, overlay map[string][]byt
 			}
 			h := &helper{decl: fd, obj: obj, file: f, src: srcOf[f]}
 			ok = true
+			if fd.Type.TypeParams != nil {
+				// a generic function: only when its type parameters appear in parameter types alone (the arguments carry
+				// the instantiated types into the body)
+				if fd.Recv != nil || mentionsTypeParam(info, fd.Body) || (fd.Type.Results != nil && mentionsTypeParam(info, fd.Type.Results)) {
+					continue
+				}
+			}
 			if fd.Type.Results != nil {
 				for _, r := range fd.Type.Results.List {
 					if len(r.Names) > 0 {
@@ -198,7 +209,15 @@ func onePass(p *packages.Package, keep map[string]bool, overlay map[string][]byt
 		return 0, nil, nil
 	}
 	// ---- call sites
+	// labels and result variables must stay unique across passes: continue after the highest number already present
 	counter := 0
+	for _, b := range srcOf {
+		for _, m := range inlNumRe.FindAllSubmatch(b, -1) {
+			if v, err := strconv.Atoi(string(m[1])); err == nil && v > counter {
+				counter = v
+			}
+		}
+	}
 	edits := map[*ast.File][]edit{}
 	var log []string
 	calleeOf := func(c *ast.CallExpr) *helper {
@@ -362,7 +381,18 @@ func onePass(p *packages.Package, keep map[string]bool, overlay map[string][]byt
 				nm := n.Name
 				names = append(names, nm)
 				ptxt := string(h.src[off(pl.Type.Pos()):off(pl.Type.End())])
-				args = append(args, "("+ptxt+")("+string(csrc[off(call.Args[ai].Pos()):off(call.Args[ai].End())])+")")
+				atxt := string(csrc[off(call.Args[ai].Pos()):off(call.Args[ai].End())])
+				if mentionsTypeParam(info, pl.Type) {
+					// the parameter type cannot be written at the call site: the argument must already have its type
+					if tv, ok := info.Types[call.Args[ai]]; !ok || tv.Type == nil || tv.IsNil() {
+						return "", nil, false
+					} else if b, isB := tv.Type.(*types.Basic); isB && b.Info()&types.IsUntyped != 0 {
+						return "", nil, false
+					}
+					args = append(args, "("+atxt+")")
+				} else {
+					args = append(args, "("+ptxt+")("+atxt+")")
+				}
 				ai++
 			}
 		}
@@ -526,4 +556,21 @@ func onePass(p *packages.Package, keep map[string]bool, overlay map[string][]byt
 		overlay[nameOf[f]] = bytes.Clone(b)
 	}
 	return n, log, nil
+}
+
+
+// mentionsTypeParam: some identifier under n names a type parameter.
+func mentionsTypeParam(info *types.Info, n ast.Node) bool {
+	found := false
+	ast.Inspect(n, func(x ast.Node) bool {
+		if id, ok := x.(*ast.Ident); ok {
+			if tn, ok := info.ObjectOf(id).(*types.TypeName); ok {
+				if _, isTP := tn.Type().(*types.TypeParam); isTP {
+					found = true
+				}
+			}
+		}
+		return true
+	})
+	return found
 }
